@@ -7,7 +7,7 @@ open Zc Zc.Wire Zc.Wire.Strict
 
 /-- names inside the property's quantifier: at least one label, labels of 1..63 bytes, at most 128
 labels (implied by the 253-character limit), at most 253 characters -/
-def WFName (n : WName) : Prop := n ≠ [] ∧ (∀ l ∈ n, WFLabel l) ∧ n.length ≤ 128 ∧ nameLen n ≤ 253
+def WFName (n : WName) : Prop := n ≠ [] ∧ (∀ l ∈ n, WFLabel l) ∧ n.length ≤ 128 ∧ nameLen n ≤ 253 ∧ wireLen n ≤ 255
 
 instance (n : WName) : Decidable (WFName n) := by unfold WFName; infer_instance
 
@@ -24,13 +24,13 @@ theorem writeName_spec (pre : Bytes) (names names' : Names) (out : Bytes) (n : W
     (h12 : 12 ≤ pre.length) (hg : NamesGood pre names) (hwf : WFName n)
     (hw : writeName pre.length names n = .ok (out, names')) (hfin : (pre ++ out).length ≤ 16384) :
     decName (pre ++ out) pre.length = some (n, (pre ++ out).length) ∧ NamesGood (pre ++ out) names' ∧ 0 < out.length := by
-  obtain ⟨hne, hlab, hcount, hlen⟩ := hwf
+  obtain ⟨hne, hlab, hcount, hlen, hwire⟩ := hwf
   obtain ⟨hpos, hdec, hnew⟩ := writeName_gen n pre names names' out pre.length (Nat.le_refl _) hlab
     (fun p hp => Or.inr (hg p hp)) hw hfin
   refine ⟨?_, ?_, hpos⟩
   · unfold decName
     rw [decFrom_fuel_le _ _ maxSegments _ _ _ (by unfold maxSegments; omega) hdec]
-    simp [hlen]
+    simp [hlen, hwire]
   · intro p hp
     rcases hnew p hp with h | ⟨h1, h2, h3, _, h5⟩
     · exact ((hg p h).append out).mono (by simp)
